@@ -4,7 +4,7 @@ import vlib
 from vlib import show, parse, oracle, parse2, guarded
 
 TRUSTED = ["Coq 8.16.1 kernel", "extraction (ExtrOcamlBasic, Z inductive) + oracle/driver.ml",
-           "tools/translate.py (Python ast -> Gallina, fail-closed) for RaggedView2._calculate_lengths",
+           "tools/translate.py (Python ast -> Gallina, fail-closed) for RaggedView2._calculate_lengths / _pos_col_slice / col_slice (negative step, integer column) / ends",
            "numpy indexing primitives as modelled in Lib/NumpySem.v (validated by every case)", "this harness"]
 ASSUME = ["element values are the flat positions 0..n-1 (parametricity: getitem only moves elements)"]
 RULE = ("index expressions on lazily derived arrays (the two-step chains of C06) and on fresh arrays: 9 shapes with empty rows in every position x every row selector (Ellipsis, ints -n-1..n, slices over 6x6x5 bounds/steps, "
@@ -14,24 +14,7 @@ SHAPES = [[3,0,2,1],[0,2],[2,0],[0,0],[1,3],[0],[2],[],[0,1,0,0,2]]
 
 
 def translator_tie():
-    with vlib.lock("gen"):
-        return _translator_tie()
-
-
-def _translator_tie():
-    src = os.path.join(vlib.REPO, "npstructures", "raggedshape.py")
-    gen = vlib.COQ / "Gen" / "K_view.v"
-    rc, out = vlib.sh(["/venv/bin/python", str(vlib.ROOT / "tools" / "translate.py"), src, str(gen) + ".new"])
-    if rc != 0:
-        return [{"tie": "translator accepts raggedshape.py (fail-closed)", "ok": False, "detail": out[-300:]}]
-    new = open(str(gen) + ".new").read(); os.remove(str(gen) + ".new")
-    if not gen.exists() or gen.read_text() != new: gen.write_text(new)
-    res = []
-    for f in ("Gen/K_view.v", "Tie/Tie_robust.v"):
-        rc, out = vlib.sh(["timeout", "120", "coqc", "-Q", ".", "NPS", f], cwd=vlib.COQ, timeout=130)
-        res.append({"tie": f"coqc {f} (generated kernel = hand model, for all L >= 0, step <> 0)", "ok": rc == 0, "detail": out[-300:]})
-        if rc != 0: break
-    return res
+    return vlib.translator_tie(["view"])
 
 
 def enc_rsel(r):
